@@ -14,7 +14,7 @@ PROPERTY = "C16"
 LEVEL = "model_checking"
 RULE = (
     "states = histories over {write(cfg) for cfg in the writer alphabet} u {replace index, edit the last / the first index sample in place, shift the whole index by 0.01, insert "
-    "a curve at position 0, edit another curve, edit a header value, edit WRAP} from 16 roots (scratch LASFiles with "
+    "a curve at position 0, edit another curve, edit a header value, edit WRAP} from 17 roots (scratch LASFiles with "
     "increasing / decreasing / irregular / single-sample index, with and without units; files read with STOP agreeing "
     "or not, STRT disagreeing, 1.2, wrapped, empty-valued items, text curve, duplicate mnemonics, depths around 3000, STRT/STOP/STEP units disagreeing, read with mnemonic_case='lower'); on every write "
     "transition: (a) frame - full snapshot before/after differs only inside the statement's allow-list, VERS untouched; "
@@ -65,7 +65,7 @@ def file_text(vers="2.0", wrap="NO", strt="1.0", stop="3.0", step="1.0", text_cu
 
 
 ROOTS = {
-    "scratch-inc": None, "scratch-dec": None, "scratch-irr": None, "scratch-single": None,
+    "scratch-inc": None, "scratch-dec": None, "scratch-irr": None, "scratch-single": None, "scratch-big": None,
     "read-agree": file_text(), "read-stop-wrong": file_text(stop="2.5"), "read-strt-wrong": file_text(strt="0.5"),
     "read-12": file_text(vers="1.2"), "read-wrapped": file_text(wrap="YES"), "read-text": file_text(text_curve=True),
     "read-dup": file_text(dup=True), "read-stop-wrong-12": file_text(vers="1.2", stop="9"),
@@ -88,6 +88,14 @@ def make_root(name):
     if name == "scratch-irr":
         las = lasio.LASFile()
         las.append_curve("TIME", np.array([1.0, 2.5, 7.0]), unit="ft")
+        return las, True
+    if name == "scratch-big":
+        # a round number of rows, wide enough to wrap into several physical lines per depth step
+        las = lasio.LASFile()
+        n = 1000
+        las.append_curve("DEPT", np.arange(n) * 0.5 + 100.0, unit="m")
+        for j in range(1, 16):
+            las.append_curve("C%d" % j, np.arange(n) * 0.25 + j)
         return las, True
     if name == "scratch-single":
         las = lasio.LASFile()
@@ -375,7 +383,7 @@ def units(tier, seed):
 
 def run_unit(unit):
     root, tier = unit["root"], unit["tier"]
-    depth = DEPTH[tier]
+    depth = DEPTH[tier] if root != "scratch-big" else 1   # the 1000 x 16 root only takes single operations
     res = {"evals": 0, "nontrivial": set(), "outcomes": {}, "violations": [], "samples": [],
            "states": set(), "transitions": 0, "traces": 0, "max_depth": 0}
     seen = set()
